@@ -37,6 +37,20 @@ def library_ranges(mapfile):
 def make_history(h, desc, vals, fns, rng, length):
     steps = []
     hand_made = rng.random() < 0.4      # in such a history every generated crystal is a hand-made struct whose volume member was left at 0
+    if rng.random() < 0.15:
+        # one object, many questions: every crystal function on the same generated crystal (shared object in the history), in random order, twice
+        cfns = [f for f in fns if "Crystal_Struct*" in desc[f]["args"]]
+        tok = None
+        for f in cfns * 2:
+            sw = apisweep.sweep(h, desc, vals, f, 6, True)
+            cand = [(k, a) for k, a in sw if isinstance(a[0], str) and a[0].startswith("g:")]
+            if not cand:
+                continue
+            k, a = rng.choice(cand)
+            tok = tok or a[0]
+            a = [("h:" + tok[2:]) if hand_made else tok] + list(a[1:])
+            steps.append((f, k, a))
+        rng.shuffle(steps)
     while len(steps) < length:
         if rng.random() < 0.06:
             # a collection owned by the history step alone (init, load a generated file, add, list, look up, free): leaves nothing behind, so it is a
